@@ -13,7 +13,7 @@ RULE = ('every sequence over the item alphabet (None included) up to the length 
         'stream, plain observable); the real operator output is compared with a one-line list definition. '
         'Non-trivial = sequence of length >= 2 whose expected output differs from the input or is shorter/longer; '
         'states = distinct store snapshots taken at every event of the real run.')
-DEEP_PROBES = ('parameters 257 / 300 with sequences of 257..601 items; 300-item sequences for every operator; a 70 000 item sort; tuple items with equal hashes; a key re-created around an empty lifetime')
+DEEP_PROBES = ('every operator, plain and multiplexed, on every input of up to 3 items subscribed twice on the same observable; parameters 257 / 300 with sequences of 257..601 items; 300-item sequences for every operator; a 70 000 item sort; tuple items with equal hashes; a key re-created around an empty lifetime')
 ASSUMPTIONS = [
     'items are drawn from a 3-4 value alphabet including None; lengths up to the bound',
     'padding semantics on an empty key and first/last on an empty plain observable are not defined by the property and skipped',
@@ -113,6 +113,9 @@ def cases(unit):
         for o in OPS:
             for seq in spaces.sequences([None, 0, 1], 3):
                 yield {'op': o, 'mode': 'reuse', 'seq': seq}
+        for o in OPS + SORTS + [['to_list']]:
+            for seq in spaces.sequences([0, 1, 2] if o[0] == 'sort' else [None, 0, 1], 3):
+                yield {'op': o, 'mode': 'resub', 'seq': seq}
         for o in OPS + LARGE:
             for n in (300, 599, 600, 601, 257) if o in LARGE else (300,):
                 seq = [None if i % 7 == 3 else (i * 5) % 4 for i in range(n)]
@@ -190,6 +193,25 @@ def run_case(case, acc):
         if sink.error is not None or sink.items != exp:
             return [viol(o, 'mux', 'tuple-items-' + str(harness.diff_kind(exp, sink.items)), {'items': items, 'expected': exp, 'observed': sink.items})]
         return []
+    if mode == 'resub':
+        # the same observable (same operator objects) subscribed a second time emits the same items again
+        out = []
+        keyed = o[0] == 'sort' and len(o) > 1 and o[1] is not None
+        items = [(v, i) for i, v in enumerate(seq)] if keyed else list(seq)
+        for mux in (True, False):
+            if (not mux and o[0] not in PLAIN_OK and o[0] not in ('sort', 'to_list')) or (mux and o[0] == 'sort'):
+                continue
+            if not seq and ((not mux and o[0] in ('first', 'last')) or o[0] in ('pad_start', 'pad_end', 'start_with')):
+                continue
+            a, b = harness.run_twice([o], items, mux=mux)
+            acc.evals += 2
+            acc.events += 2 * (len(seq) + 1)
+            acc.traces += 2
+            acc.count('second_subscriptions')
+            if a.error is None and not harness.same_outcome(a, b):
+                out.append(viol(o, 'api' if mux else 'plain', 'second-subscription-differs',
+                                {'op': o, 'items': items, 'first': [a.items, a.status()], 'second': [b.items, b.status()]}))
+        return out
     if mode == 'reuse':
         # the key lives three times on the same index: items, then an EMPTY lifetime, then items again
         events = [('c', 0)] + [('n', 0, x) for x in seq] + [('d', 0), ('c', 0), ('d', 0), ('c', 0)] + [('n', 0, x) for x in reversed(seq)] + [('d', 0)]
